@@ -358,6 +358,7 @@ func treeRules(ctx *Ctx, r *Result) {
 		}
 	}
 	kindPrefixRule(ctx, r, "R1.6")
+	insertHelperRule(ctx, r)
 
 	// ---- R1.7 -----------------------------------------------------------
 	if fn := p.Func(pkgOrigins, "(*Tree).Contains"); fn == nil {
@@ -1272,4 +1273,70 @@ func shorterArg(pa *Path, A, B string) string {
 		return B // len(B) ≤ len(A)
 	}
 	return ""
+}
+
+// insertHelperRule (R1.11): the module's own slice-insertion helper, which
+// R1.4 and R1.10 take as the constructor "s with v at index i", really is
+// one: s grown by one element, the tail shifted right by exactly one copy,
+// v stored at i, the grown slice returned. (A tree that delegates to
+// slices.Insert instead has no such helper; nothing to check then.)
+func insertHelperRule(ctx *Ctx, r *Result) {
+	p := ctx.P
+	r.rule("R1.11", "the insertion helper is s[:i] + [v] + s[i:]: grow by one, one copy of s[i:] to s[i+1:], store v at i, return the grown slice", 0)
+	fn := p.Func(pkgOrigins, "insert")
+	if fn == nil {
+		return
+	}
+	if len(fn.Params) != 3 {
+		r.undecided("R1.11", "origins.insert", "unexpected signature")
+		return
+	}
+	x := p.NewExec(nil)
+	paths := x.Summarize(fn)
+	r.Paths += len(paths)
+	S, I, V := "param:"+fn.Params[0].Name(), "param:"+fn.Params[1].Name(), "param:"+fn.Params[2].Name()
+	bad := strings.Join(x.Problems, ";")
+	if len(paths) != 1 || hasLoop(fn) {
+		bad = "the helper is not straight-line code"
+	}
+	for _, pa := range paths {
+		var grown *Term
+		nCopy, nStore := 0, 0
+		for _, e := range pa.Effects {
+			switch {
+			case e.Kind == "builtin" && e.Name == "builtin.append":
+				if grown != nil || len(e.Args) != 2 || e.Args[0].Key() != S || e.Args[1].Op != "lit" || len(e.Args[1].Args) != 1 {
+					bad = "the slice is not grown by exactly one element, once: " + e.String()
+				}
+				grown = e.Res
+				if grown == nil {
+					grown = &Term{Op: "append", Args: e.Args}
+				}
+			case e.Kind == "builtin" && e.Name == "builtin.copy":
+				nCopy++
+				if grown == nil || len(e.Args) != 2 ||
+					e.Args[0].Key() != "slice("+grown.Key()+", bin:+("+I+", 1), _, _)" || e.Args[1].Key() != "slice("+grown.Key()+", "+I+", _, _)" {
+					bad = "the tail is not shifted by copy(s[i+1:], s[i:]) on the grown slice: " + e.String()
+				}
+			case e.Kind == "store":
+				if r0 := e.Args[0].addrRoot(); r0 != nil && r0.Op == "alloc" {
+					continue // the variadic argument of append
+				}
+				nStore++
+				if grown == nil || e.Args[0].Key() != "iaddr("+grown.Key()+", "+I+")" || e.Args[1].Key() != V {
+					bad = "the new element is not stored at index i of the grown slice: " + e.String()
+				}
+			case e.Kind == "enter":
+			default:
+				bad = "unexpected effect in the insertion helper: " + e.String()
+			}
+		}
+		if bad == "" && (grown == nil || nCopy != 1 || nStore != 1) {
+			bad = fmt.Sprintf("the helper performs %d copies and %d element stores (expected 1 and 1)", nCopy, nStore)
+		}
+		if bad == "" && (len(pa.Rets) != 1 || pa.Rets[0].Key() != grown.Key()) {
+			bad = "the helper does not return the grown slice"
+		}
+	}
+	r.check(bad == "", "R1.11", "origins.insert", p.Pos(fn.Pos()), bad, len(paths))
 }
